@@ -293,7 +293,7 @@ def run(run):
     # (a)
     if "word" in only:
         depth = {"T1": 3, "T2": 3, "T3": 3, "T4": 3, "T5": 3, "T6": 3, "T7": 3, "TU": 2} if quick else \
-                {"T1": 5, "T2": 5, "T3": 5, "T4": 5, "T5": 4, "T6": 4, "T7": 4, "TU": 3}
+                {"T1": 4, "T2": 4, "T3": 4, "T4": 4, "T5": 4, "T6": 4, "T7": 4, "TU": 3}
         tot_s = tot_t = bf = bc = 0
         obs = set()
         for theme, d in depth.items():
